@@ -1,8 +1,17 @@
 """C10 implementation runner: drives Future / ConstFuture / ErrorFuture / FutureBase / AsyncTask
-through an op list using the public API only."""
+through an op list using the public API only.
+
+Kind "KSusp" (model: TaskFut.v) is an AsyncTask whose body yields one dependency per phase inside a
+try/except GeneratorExit; the dependency's own computation (provider of a lazy Future, or _flush of
+the batch of a batch item) issues the phase's inner operations on the suspended task."""
 import _common
+import asynq as asynq_pkg
 from asynq import asynq
 from asynq.futures import FutureBase, Future, ConstFuture, ErrorFuture, FutureIsAlreadyComputed
+from asynq.batching import BatchBase, BatchItemBase
+
+E_RUNTIME = -9
+E_SKIPPED = -20
 
 
 class VErr(Exception):
@@ -41,6 +50,8 @@ def exn_id(e):
         return -3
     if isinstance(e, NotImplementedError):
         return -4
+    if type(e) is RuntimeError:
+        return E_RUNTIME
     return {"Unexpected": [{"s": type(e).__name__}]}
 
 
@@ -54,21 +65,218 @@ def peek(fut):
     return {"Ok": [treeval(fut.value())]}
 
 
+class _Batch(BatchBase):
+    def __init__(self, work):
+        BatchBase.__init__(self)
+        self.work = work
+
+    def _try_switch_active_batch(self):
+        pass
+
+    def _flush(self):
+        self.work(self)
+
+
+class _Item(BatchItemBase):
+    pass
+
+
+def _split(op):
+    if isinstance(op, str):
+        return op, []
+    (name, a), = op.items()
+    return name, a
+
+
+def run_susp(c):
+    """AsyncTask driven by the scheduler; inner operations run while it is suspended."""
+    _, phases, fin, ops = c["args"]
+    asynq_pkg.scheduler.reset()
+    runs = [0]
+    log = []
+    inner_res = []
+    subs = []
+    points = []       # observation points: before / after every operation, top-level or inner
+    provlog = []      # how each run of the body ended by itself (returned / raised), observed
+    holder = {}
+
+    def point(when, lvl, i, name, extra=None):
+        d = {"when": when, "lvl": lvl, "i": i, "op": name, "st": peek(holder["t"]), "nlog": len(log),
+             "subs": list(subs), "runs": runs[0], "nprov": len(provlog)}
+        if extra:
+            d.update(extra)
+        points.append(d)
+
+    def subscribe(task, sid, k):
+        def cb(f, sid=sid, k=k):
+            log.append({"": [sid, peek(f) or "NotVisible"]})
+            if k == "CbRaise":
+                raise VErr(900 + sid)
+        task.on_computed.subscribe(cb)
+        subs.append(sid)
+
+    def run_inner(pi, ph):
+        task = holder["t"]
+        via, clean, iops, dep = ph["mkphase"]
+        cname = clean if isinstance(clean, str) else next(iter(clean))
+        for j, op in enumerate(iops):
+            name, a = _split(op)
+            tag = {"phase": pi, "clean": cname, "via": via}
+            point("pre", "in", j, name, tag)
+            try:
+                if name == "IIsComputed":
+                    r = {"RBool": ["true" if task.is_computed() else "false"]}
+                elif name == "ISetValue":
+                    task.set_value(pyval(a[0]))
+                    r = "RUnit"
+                elif name == "ISetError":
+                    task.set_error(VErr(a[0]))
+                    r = "RUnit"
+                elif name == "ISubscribe":
+                    subscribe(task, a[0], a[1])
+                    r = "RUnit"
+                elif name in ("IValue", "ICall", "IError"):
+                    # guarded: a computing read of the suspended task from inside its own dependency's
+                    # computation re-enters the scheduler; it is not issued
+                    if not task.is_computed():
+                        r = {"RRaise": [E_SKIPPED]}
+                    elif name == "IValue":
+                        r = {"RVal": [treeval(task.value())]}
+                    elif name == "ICall":
+                        r = {"RVal": [treeval(task())]}
+                    else:
+                        e = task.error()
+                        r = "RNoError" if e is None else {"RErr": [exn_id(e)]}
+                else:
+                    raise ValueError(name)
+            except BaseException as e:
+                if isinstance(e, _common.Hang):
+                    raise
+                r = {"RRaise": [exn_id(e)]}
+            inner_res.append(r)
+            tag = dict(tag)
+            tag["r"] = r
+            point("post", "in", j, name, tag)
+
+    def finish_dep(dep):
+        (k, a), = dep.items()
+        if k == "Ok":
+            return pyval(a[0])
+        raise VErr(a[0])
+
+    deps = []
+    for pi, ph in enumerate(phases):
+        via, clean, iops, dep = ph["mkphase"]
+        if via == "ViaFuture":
+            def provider(pi=pi, ph=ph, dep=dep):
+                run_inner(pi, ph)
+                return finish_dep(dep)
+            deps.append(Future(provider))
+        else:
+            def work(batch, pi=pi, ph=ph, dep=dep):
+                run_inner(pi, ph)
+                for item in batch.items:
+                    try:
+                        v = finish_dep(dep)
+                    except VErr as e:
+                        item.set_error(e)
+                    else:
+                        item.set_value(v)
+            deps.append(_Item(_Batch(work)))
+
+    @asynq()
+    def body():
+        runs[0] += 1
+        if False:
+            yield None
+        for pi, ph in enumerate(phases):
+            clean = ph["mkphase"][1]
+            try:
+                yield deps[pi]
+            except VErr as e:             # the failed dependency, thrown in by the scheduler
+                provlog.append({"Err": [e.vid]})
+                raise
+            except GeneratorExit:
+                if clean == "CleanYield":
+                    yield None          # ignores GeneratorExit: close() raises RuntimeError
+                elif clean != "CleanOk":
+                    (k, a), = clean.items()
+                    if k == "CleanRaise":
+                        raise VErr(a[0])
+                    raise VBase(a[0])
+                raise
+        (k, a), = fin.items()
+        if k == "PRet":
+            provlog.append({"Ok": [a[0]]})
+            return pyval(a[0])
+        provlog.append({"Err": [a[0]]})
+        if k == "PRaise":
+            raise VErr(a[0])
+        raise VBase(a[0])
+
+    task = body.asynq()
+    holder["t"] = task
+
+    res = []
+    for i, op in enumerate(ops):
+        name, a = _split(op)
+        point("pre", "top", i, name)
+        try:
+            if name == "OValue":
+                r = {"RVal": [treeval(task.value())]}
+            elif name == "OCall":
+                r = {"RVal": [treeval(task())]}
+            elif name == "OError":
+                e = task.error()
+                r = "RNoError" if e is None else {"RErr": [exn_id(e)]}
+            elif name == "OIsComputed":
+                r = {"RBool": ["true" if task.is_computed() else "false"]}
+            elif name == "OSetValue":
+                task.set_value(pyval(a[0]))
+                r = "RUnit"
+            elif name == "OSetError":
+                task.set_error(VErr(a[0]))
+                r = "RUnit"
+            elif name == "OReset":
+                task.reset_unsafe()
+                r = "RUnit"
+            elif name == "OSubscribe":
+                subscribe(task, a[0], a[1])
+                r = "RUnit"
+            else:
+                raise ValueError(name)
+        except BaseException as e:
+            if isinstance(e, _common.Hang):
+                raise
+            r = {"RRaise": [exn_id(e)]}
+        res.append(r)
+        point("post", "top", i, name, {"r": r})
+    return {"out": {"": [res, inner_res, log, runs[0]]}, "points": points, "prov": provlog}
+
+
 def run_case(c):
+    if c["args"][0] == "KSusp":
+        return run_susp(c)
     kind, prov, o0, ops = c["args"]
     script = list(prov)
     runs = [0]
     log = []
 
+    provlog = []     # what each run of the underlying computation did (observed, for the monitors)
+
     def one_run():
         runs[0] += 1
         if not script:
+            provlog.append({"Ok": ["VNone"]})
             return None
         (k, a), = script.pop(0).items()
         if k == "PRet":
+            provlog.append({"Ok": [a[0]]})
             return pyval(a[0])
         if k == "PRaise":
+            provlog.append({"Err": [a[0]]})
             raise VErr(a[0])
+        provlog.append({"Base": [a[0]]})
         raise VBase(a[0])
 
     if kind == "KPlain":
@@ -98,6 +306,7 @@ def run_case(c):
             (name, a), = op.items()
         pre = peek(fut)
         pre_runs = runs[0]
+        pre_prov = len(provlog)
         try:
             if name == "OValue":
                 r = {"RVal": [treeval(fut.value())]}
@@ -133,7 +342,8 @@ def run_case(c):
                 raise
             r = {"RRaise": [exn_id(e)]}
         res.append(r)
-        obs.append({"op": name, "pre": pre, "post": peek(fut), "runs": runs[0] - pre_runs, "nlog": len(log)})
+        obs.append({"op": name, "pre": pre, "post": peek(fut), "runs": runs[0] - pre_runs, "nlog": len(log),
+                    "prov": provlog[pre_prov:]})
     return {"out": {"": [res, log, runs[0]]}, "obs": obs}
 
 
